@@ -87,6 +87,7 @@ type ResponseSpec struct {
 	Style                                  nsStyle
 	Pretty                                 bool
 	XMLDecl                                bool
+	IssuerSplit                            string  // "": plain text; "pi" / "child": the Issuer text is interrupted by a processing instruction / an extension element
 	Kind                                   string  // "Response" | "LogoutResponse" | "LogoutRequest"
 	NameID                                 *string // LogoutRequest
 }
@@ -352,7 +353,25 @@ func buildMessage(rs *ResponseSpec) *etree.Element {
 			if st.AP == "" && st.PP == "" {
 				i.CreateAttr("xmlns", nsAssertion)
 			}
-			i.SetText(*rs.Issuer)
+			v := *rs.Issuer
+			k := len(v) / 2
+			for k > 0 && !isRuneStart(v, k) {
+				k--
+			}
+			switch {
+			case rs.IssuerSplit == "pi" && k > 0:
+				i.AddChild(etree.NewText(v[:k]))
+				i.AddChild(etree.NewProcInst("sso-region", "eu-1"))
+				i.AddChild(etree.NewText(v[k:]))
+			case rs.IssuerSplit == "child" && k > 0:
+				i.AddChild(etree.NewText(v[:k]))
+				h := etree.NewElement("ext:hint")
+				h.CreateAttr("xmlns:ext", "urn:example:sso:ext")
+				i.AddChild(h)
+				i.AddChild(etree.NewText(v[k:]))
+			default:
+				i.SetText(v)
+			}
 		}
 	}
 	issuerEl()
